@@ -206,6 +206,52 @@ theorem lru_set_then_get_hits (cap : Option Nat) (hcap : cap ≠ some 0) (h : Li
   · simp [chas, hr, lookup]
   · simp [keys, hr]
 
+/-- A recently used key is still cached: in a cache of size `n`, a key that was `set` and then
+followed by fewer than `n` further operations (none of them `clear`) is still present, whatever
+the history before the `set` and whatever those operations are (they can evict at most one entry
+each, always the least recently used).  Together with `lru_get_returns_last_set` the `get`
+returns the latest value stored for it. -/
+theorem lru_recent_key_survives (n : Nat) (h h' : List (Op κ ν)) (k : κ) (v : ν)
+    (hno : ∀ op ∈ h', op ≠ Op.clear) (hlen : h'.length < n) :
+    chas (run (empty (some n) : Lru κ ν) (h ++ Op.set k v :: h')) k = true ∧
+    ∃ w, (cget (run (empty (some n) : Lru κ ν) (h ++ Op.set k v :: h')) k).2 = some w ∧
+      dictGet (h ++ Op.set k v :: h') k = some w := by
+  have hsplit : run (empty (some n) : Lru κ ν) (h ++ Op.set k v :: h') =
+      run (cset (run (empty (some n) : Lru κ ν) h) k v) h' := by
+    simp [run, List.foldl_append, step]
+  have hc : (run (empty (some n) : Lru κ ν) h).cap = some n := by rw [run_cap]; rfl
+  have hpres : k ∈ keys (run (empty (some n) : Lru κ ν) (h ++ Op.set k v :: h')).items := by
+    rw [hsplit]
+    generalize run (empty (some n) : Lru κ ν) h = c at *
+    have hd : isDisabled c = false := by
+      unfold isDisabled; rw [hc]; simp; omega
+    have hitems : ∃ rest, (cset c k v).items = (k, v) :: rest := by
+      unfold cset; rw [hd]
+      simp only [Bool.false_eq_true, if_false]
+      split
+      · exact ⟨_, rfl⟩
+      · split <;> exact ⟨_, rfl⟩
+    obtain ⟨rest, hr⟩ := hitems
+    have h0 : Near k 0 (cset c k v) := by
+      refine ⟨by simp [keys, hr], ?_⟩
+      simp [keys, hr, posOf]
+    have hcc : (cset c k v).cap = some n := by
+      have := step_cap c (Op.set k v); simpa [step, hc] using this
+    exact (near_run n k h' (cset c k v) 0 hcc h0 (by omega) hno).1
+  cases hl : lookup k (run (empty (some n) : Lru κ ν) (h ++ Op.set k v :: h')).items with
+  | none => exact absurd hpres ((lookup_none_iff k _).mp hl)
+  | some w =>
+    refine ⟨by simp [chas, hl], w, ?_, ?_⟩
+    · simp [cget, hl]
+    · exact lru_get_returns_last_set (some n) _ k w (by simp [cget, hl])
+
+/-- Non-vacuity / sharpness: size 2, `set a`, one more operation: `a` still cached; two more
+fresh keys: `a` evicted (so the bound `h'.length < n` cannot be relaxed). -/
+example :
+    chas (run (empty (some 2) : Lru Nat Nat) [Op.set 1 10, Op.set 2 20]) 1 = true ∧
+    chas (run (empty (some 2) : Lru Nat Nat) [Op.set 1 10, Op.set 2 20, Op.set 3 30]) 1 = false := by
+  decide
+
 /-- `has` is a pure observation and `clear` forgets everything: after `clear` every key
 misses, whatever the history before it. -/
 theorem lru_has_is_pure_and_clear_empties (cap : Option Nat) (h : List (Op κ ν)) (k : κ) :
